@@ -174,13 +174,31 @@ def txt(b):
     return bytes(b).decode("utf8")
 
 
+def escape_some(text, rng, p_string=0.35):
+    """the same JSON document with some characters of some string literals (keys, type names, names, symbols alike) spelled as \\uXXXX escapes:
+    a JSON parser hands such strings over as owned, not borrowed, text"""
+    import re
+
+    def one(m):
+        lit = m.group(0)
+        if rng.random() >= p_string or "\\" in lit:
+            return lit
+        body = lit[1:-1]
+        out = []
+        for ch in body:
+            out.append("\\u%04x" % ord(ch) if (ch.isalnum() or ch in "._-") and rng.random() < 0.4 else ch)
+        return '"' + "".join(out) + '"'
+    return re.sub(r'"(?:[^"\\]|\\.)*"', one, text)
+
+
 def render(doc, rng, style):
-    """document AST -> JSON text.  style: 0 compact canonical order, 1 shuffled attributes + extras, 2 pretty + extras"""
+    """document AST -> JSON text.  style: 0 compact canonical order, 1 shuffled attributes + extras, 2 pretty + extras (1 and 2: some
+    strings spelled with unicode escapes)"""
     v = to_py(doc, rng, style)
     if style == 2:
-        return json.dumps(v, indent=rng.choice([1, 2, "\t"]), ensure_ascii=rng.random() < 0.5)
+        return escape_some(json.dumps(v, indent=rng.choice([1, 2, "\t"]), ensure_ascii=rng.random() < 0.5), rng)
     if style == 1:
-        return json.dumps(v, separators=(" ,  ", " : "), ensure_ascii=rng.random() < 0.5)
+        return escape_some(json.dumps(v, separators=(" ,  ", " : "), ensure_ascii=rng.random() < 0.5), rng)
     return json.dumps(v, separators=(",", ":"))
 
 
